@@ -62,16 +62,6 @@ def cases(tier, seed):
 def build(e):
     from .. import lib
 
-    if e[0] == "CQ":
-        big = al.build_leaf("Q.c16")
-        big.scale(3.0, 3.0)
-        if e[1] == "ringc":
-            return lib.ConnectedShape([big, al.build_leaf("Q.lens@cw")])
-        if e[1] == "twoc":
-            return lib.DisjointShape([al.build_leaf("Q.c8s"), al.build_leaf("Q.c8far")])
-        if e[1] == "xringc":
-            big.invert()
-            return lib.DisjointShape([big, al.build_leaf("Q.blob")])
     return al.lib_eval(e)
 
 
